@@ -261,7 +261,8 @@ class VQESolver:
         self.optimal_var_params = optimal_var_params
         self.optimal_energy = optimal_energy
         self.ansatz.build_circuit(self.optimal_var_params)
-        self.optimal_circuit = self.reference_circuit+self.ansatz.circuit if self.ref_state is not None else self.ansatz.circuit
+        # A copy: the ansatz circuit itself is updated in place by every later evaluation
+        self.optimal_circuit = self.reference_circuit+self.ansatz.circuit if self.ref_state is not None else self.ansatz.circuit.copy()
         if self.projective_circuit:
             self.optimal_circuit += self.projective_circuit
 
